@@ -30,7 +30,10 @@ func genStack(r *Rng, c *handCfg) int64 {
 }
 
 func genCfg(r *Rng) *handCfg {
-	c := &handCfg{limit: "no", hole: 2, req: 0, table: "std"}
+	c := &handCfg{limit: "no", hole: 2, req: 0, table: "std", burn: 1}
+	if r.Chance(0.1) {
+		c.burn = []int{0, 2, 3}[r.Intn(3)]
+	}
 	n := 2 + r.Intn(5)
 	if r.Chance(0.15) {
 		n = 7 + r.Intn(3)
